@@ -49,6 +49,11 @@ theorem mem_properPrefixes (p q : Path) :
             rw [properPrefix_iff]
             exact ⟨hxs, by simp at h2; omega⟩
 
+theorem keysUnique_iff (ks : List Path) : keysUnique ks = true ↔ ks.Nodup := by
+  induction ks with
+  | nil => simp [keysUnique]
+  | cons k ks ih => simp [keysUnique, ih]
+
 /-- the (order independent) leaf/node check: no non-empty path is a proper prefix of a path -/
 theorem structureValid_iff (ks : List Path) :
     structureValid ks = true ↔ ∀ p ∈ ks, ∀ q ∈ ks, p ≠ [] → properPrefix p q = false := by
@@ -117,12 +122,13 @@ theorem pathStrings_ok {jobs : List Job} {spec : PathSpec} {ps : List String}
       · simp [hu] at h
 
 /-- What an accepted input satisfies: no separator in top-level keys / string values, one path
-    string per job, all different, no link path leaves the prefix, none lies below another, and
-    the link set pairs the i-th path with the i-th job. -/
+    string per job, all different, the normalised link paths are pairwise different too, none
+    leaves the prefix, none lies below another, and the link set pairs the i-th path with the
+    i-th job. -/
 theorem createLinks_ok {jobs : List Job} {spec : PathSpec} {L : List (Path × String)}
     (h : createLinks jobs spec = .ok L) :
     sepFree jobs = true ∧ ∃ ps, pathStrings jobs spec = some (.ok ps) ∧ ps.Nodup ∧
-      ps.length = jobs.length ∧
+      ps.length = jobs.length ∧ (ps.map linkKey).Nodup ∧
       (∀ k ∈ ps.map linkKey, escapes k = false) ∧
       (∀ p ∈ ps.map linkKey, ∀ q ∈ ps.map linkKey, p ≠ [] → properPrefix p q = false) ∧
       L = (ps.map linkKey).zip (jobs.map (·.id)) := by
@@ -142,19 +148,23 @@ theorem createLinks_ok {jobs : List Job} {spec : PathSpec} {L : List (Path × St
         | error e => simp [hp] at h
         | ok ps =>
           simp only [hp] at h
-          by_cases h3 : (ps.map linkKey).any escapes = true
-          · simp [h3] at h
-          · simp only [h3, if_false] at h
-            by_cases h4 : structureValid (ps.map linkKey) = true
-            · simp only [h4, Bool.not_true, Bool.false_eq_true, if_false, LinkRes.ok.injEq] at h
-              obtain ⟨hnd, hlen⟩ := pathStrings_ok hid hp
-              refine ⟨ps, rfl, hnd, hlen, ?_, (structureValid_iff _).mp h4, h.symm⟩
-              intro k hk
-              simp only [Bool.not_eq_true, List.any_eq_false] at h3
-              cases he : escapes k with
-              | false => rfl
-              | true => exact absurd he (by simpa using h3 k hk)
-            · simp [h4] at h
+          by_cases h0 : keysUnique (ps.map linkKey) = true
+          · simp only [h0, Bool.not_true, Bool.false_eq_true, if_false] at h
+            by_cases h3 : (ps.map linkKey).any escapes = true
+            · simp [h3] at h
+            · simp only [h3, if_false] at h
+              by_cases h4 : structureValid (ps.map linkKey) = true
+              · simp only [h4, Bool.not_true, Bool.false_eq_true, if_false, LinkRes.ok.injEq] at h
+                obtain ⟨hnd, hlen⟩ := pathStrings_ok hid hp
+                refine ⟨ps, rfl, hnd, hlen, (keysUnique_iff _).mp h0, ?_, (structureValid_iff _).mp h4,
+                  h.symm⟩
+                intro k hk
+                simp only [Bool.not_eq_true, List.any_eq_false] at h3
+                cases he : escapes k with
+                | false => rfl
+                | true => exact absurd he (by simpa using h3 k hk)
+              · simp [h4] at h
+          · simp [h0] at h
     · simp [h2] at h
 
 /-- anything that is not accepted leaves the view as it is -/
@@ -196,17 +206,18 @@ theorem sepFree_iff (jobs : List Job) :
     | _ => rfl
 
 /-- An input the view can represent: no separator in top-level keys and string values, a path
-    for every selected job, all paths different, no link path outside the prefix, no link path
-    below another link path. -/
+    for every selected job, all paths different — also after normalisation —, no link path
+    outside the prefix, no link path below another link path. -/
 def Representable (jobs : List Job) (spec : PathSpec) : Prop :=
   (∀ j ∈ jobs, ∀ kv ∈ j.sp, hasSep kv.1 = false ∧ ∀ s, kv.2 = .str s → hasSep s = false) ∧
   ∃ ps, pathStrings jobs spec = some (.ok ps) ∧ ps.Nodup ∧ ps.length = jobs.length ∧
+    (ps.map linkKey).Nodup ∧
     (∀ k ∈ ps.map linkKey, escapes k = false) ∧
     (∀ p ∈ ps.map linkKey, ∀ q ∈ ps.map linkKey, p ≠ [] → properPrefix p q = false)
 
 theorem representable_of_ok {jobs : List Job} {spec : PathSpec} {L : List (Path × String)}
     (h : createLinks jobs spec = .ok L) : Representable jobs spec := by
-  obtain ⟨h1, ps, h2, h3, h4, h5, h6, _⟩ := createLinks_ok h
-  exact ⟨(sepFree_iff jobs).mp h1, ps, h2, h3, h4, h5, h6⟩
+  obtain ⟨h1, ps, h2, h3, h4, h5, h6, h7, _⟩ := createLinks_ok h
+  exact ⟨(sepFree_iff jobs).mp h1, ps, h2, h3, h4, h5, h6, h7⟩
 
 end Signac.LV
